@@ -89,6 +89,12 @@ def judge(res, js, line, real, autopong, sent_pings=None):
             payload = bytes.fromhex(t.split(':')[2])
             if autopong and not client_closed:
                 expected.append((i, payload))
+    # the stream is valid and nothing but socket writes can fail: an unwritable Pong is dropped silently, it never breaks the loop
+    for t in tk:
+        if t.startswith('E:disconnected:') and t.split(':')[2] in ('error', 'forced') or t.startswith('E:disconnected:other'):
+            return fail('the event stream was disturbed: %s in a run whose server stream is valid (a Pong that cannot be written must be dropped silently)' % t)
+        if t.startswith('ESCAPED'):
+            return fail('an exception escaped the iterator in a run whose server stream is valid')
     # the stream is valid: every Ping it contains must come out as a Ping event, in order (all of them unless the connection was cut
     # short by a write fault or by the application's own close / session close)
     if sent_pings is not None:
